@@ -66,6 +66,20 @@ theorem is_check_iff_exists_checker (b : Board) (bb : BB) (h : checkers? b = som
   rw [is_check_eq_checkers, h]
   simp [nonEmpty_iff]
 
+/-- line attacks are symmetric for every occupancy (all 2^64): a rook on `s` hits `t` iff a rook on `t` hits `s`; this is
+what lets `is_cell_attacked` look outward from the target square instead of from every attacker -/
+theorem rook_attack_symm (s t : Sq) (occ : BB) :
+    (rookAttack s occ).has t = true ↔ (rookAttack t occ).has s = true := by
+  have h := slide_symm Spec.rookDirs ray_sym_rook (fun x => occ.has x) s t
+  rw [rookAttack_eq_slide, rookAttack_eq_slide]
+  simpa [slideBB] using h
+
+theorem bishop_attack_symm (s t : Sq) (occ : BB) :
+    (bishopAttack s occ).has t = true ↔ (bishopAttack t occ).has s = true := by
+  have h := slide_symm Spec.bishopDirs ray_sym_bishop (fun x => occ.has x) s t
+  rw [bishopAttack_eq_slide, bishopAttack_eq_slide]
+  simpa [slideBB] using h
+
 /-! non-vacuity: in the initial position nothing attacks e4 for Black, and White's d2/f2 pawns… attack e3 -/
 example : isCellAttacked (buildBoard C04.initialRaw) ⟨44, by decide⟩ .white = true := by decide +kernel
 example : Spec.attackedBy (abs C04.initialRaw) ⟨44, by decide⟩ .white = true := by decide +kernel
